@@ -5,5 +5,11 @@ set -eu
 if [ ! -x "$VERIF_BUILD/vinstr" ] || [ "$VERIF_DIR/vinstr/main.go" -nt "$VERIF_BUILD/vinstr" ]; then
   (cd "$VERIF_DIR/vinstr" && go build -o "$VERIF_BUILD/vinstr" .)
 fi
+# instrument.sh pools: only the sync shims (deterministic sync.Pool for the uninstrumented checks)
+if [ "${1:-}" = pools ]; then
+  rm -rf "$VERIF_BUILD/instr-pools"
+  VINSTR_MODE=pools "$VERIF_BUILD/vinstr" "$VERIF_REPO" "$VERIF_BUILD/instr-pools" "$VERIF_DIR/harness/verifrt_src" > "$VERIF_BUILD/instr-pools.log" 2>&1 || { cat "$VERIF_BUILD/instr-pools.log" >&2; exit 2; }
+  exit 0
+fi
 rm -rf "$VERIF_BUILD/instr"
 "$VERIF_BUILD/vinstr" "$VERIF_REPO" "$VERIF_BUILD/instr" "$VERIF_DIR/harness/verifrt_src" > "$VERIF_BUILD/instr.log" 2>&1 || { cat "$VERIF_BUILD/instr.log" >&2; exit 2; }
